@@ -56,7 +56,7 @@ def _kind_of_return(e, local_defs, group_of):
 
 
 def extract_cascade(model):
-    fn = model.func('jsonparser', 'parse_embedded_scalar')
+    fn = model.func('jsonparser', 'parse_embedded_scalar', 'flat')
     p = fn.args.args[0].arg
     entries = []
     pending = {}      # match variable -> regex name
@@ -353,7 +353,7 @@ def writer_value(ctx, rule, kind, version, mark=False):
     interp.version = version
     interp.grid_as_nt = True
     interp.mark = mark
-    fn = m.func('jsondumper', 'dump_scalar')
+    fn = m.func('jsondumper', 'dump_scalar', 'nested')
     p = fn.args.args[0].arg
     idx, lad = TP.branch_of(interp, fn, kind)
     if idx is None:
